@@ -4,6 +4,8 @@
 // This file contains comments and pure specification functions only; it is compiled only with -tags verif.
 package lalr
 
+import symbol "github.com/acekingke/yaccgo/Symbol"
+
 //@ func (*LALR1).UseDefaultResolveConflict
 //@ props C04
 //@ results res
@@ -33,6 +35,7 @@ package lalr
 //@     (spec_R(act01, act02).PrecType == symbol.NONE || spec_S(act01, act02).PrecType == symbol.NONE) ==>
 //@     err == nil && res.ActionType == ERROR && fresh(res)
 //@ ensures err == nil ==> res == act01 || res == act02 || (fresh(res) && res.ActionType == ERROR)
+//@ ensures [C04] act01.Prec == -1 || act02.Prec == -1 ==> err != nil
 //@ modifies nothing
 //@ allocates Action
 
@@ -151,3 +154,85 @@ func spec_lookup(act []int, off []int, chk []int, adef []int, gdef []int, nT int
 //@ loop 5: invariant forall s int :: idx5 <= s && s < len(tab) ==> len(actTab[s]) == len(lalr.G.VtSet) + 1 + idx4
 //@ loop 5: invariant forall s, a int :: 0 <= s && s < len(tab) && 0 <= a && a < len(lalr.G.VtSet) + 1 + idx4 ==> actTab[s][a] == before(actTab[s][a])
 //@ loop 5: invariant forall s int :: 0 <= s && s < idx5 ==> actTab[s][len(lalr.G.VtSet)+1+idx4] == goTab[idx4][s]
+
+// ---------------------------------------------------------------------------------------------
+// C04 / C01: candidate actions of a table cell and their resolution
+
+// spec_rulePrec / spec_rulePrecType: precedence carried by a REDUCE action of rule r
+// (the rule's %prec symbol or last precedence-bearing rhs symbol; -1 / NONE when there is none).
+func spec_rulePrec(l *LALR1, r int) int {
+	if l.G.ProductoinRules[r].PrecSymbol != nil {
+		return l.G.ProductoinRules[r].PrecSymbol.Prec
+	}
+	return -1
+}
+
+func spec_rulePrecType(l *LALR1, r int) symbol.E_Precedence {
+	if l.G.ProductoinRules[r].PrecSymbol != nil {
+		return l.G.ProductoinRules[r].PrecSymbol.PrecType
+	}
+	return symbol.NONE
+}
+
+// spec_cand: a is the action that transition tr contributes to the cell of symbol sy
+// (membership of sy in the lookahead set of a reduce transition is stated separately).
+func spec_cand(l *LALR1, tr Transistor, a *Action, sy int) bool {
+	if tr.sym_or_rule&CheckMask != 0 {
+		return a.ActionType == REDUCE && a.ActionIndex == -int(tr.sym_or_rule&Mask) &&
+			a.Prec == spec_rulePrec(l, int(tr.sym_or_rule&Mask)) && a.PrecType == spec_rulePrecType(l, int(tr.sym_or_rule&Mask))
+	}
+	return a.ActionType == SHIFT && int(tr.sym_or_rule) == sy && a.ActionIndex == tr.to &&
+		a.Prec == l.G.Symbols[sy].Prec && a.PrecType == l.G.Symbols[sy].PrecType
+}
+
+//@ def inLA(l *LALR1, tr Transistor, sy int) = exists k int :: 0 <= k && k < len(l.LookAheadSet[tr.Index]) && l.LookAheadSet[tr.Index][k] == sy
+//@ def validAct(l *LALR1, tranlist []Transistor, a *Action, sy int) = a != nil && (a.ActionType == ERROR ||
+//@     (exists t int :: 0 <= t && t < len(tranlist) && spec_cand(l, tranlist[t], a, sy) && (tranlist[t].sym_or_rule&CheckMask != 0 ==> inLA(l, tranlist[t], sy))))
+//@ def wfTranlist(l *LALR1, tranlist []Transistor) = l != nil && l.G != nil &&
+//@     (forall i int :: 0 <= i && i < len(l.G.Symbols) ==> l.G.Symbols[i] != nil) &&
+//@     (forall i int :: 0 <= i && i < len(l.G.ProductoinRules) ==> l.G.ProductoinRules[i] != nil) &&
+//@     (forall t int :: 0 <= t && t < len(tranlist) ==>
+//@        (tranlist[t].sym_or_rule&CheckMask != 0 ==> 0 <= int(tranlist[t].sym_or_rule&Mask) && int(tranlist[t].sym_or_rule&Mask) < len(l.G.ProductoinRules) &&
+//@             (forall k int :: 0 <= k && k < len(l.LookAheadSet[tranlist[t].Index]) ==> 0 <= l.LookAheadSet[tranlist[t].Index][k] && l.LookAheadSet[tranlist[t].Index][k] < len(l.G.Symbols))) &&
+//@        (tranlist[t].sym_or_rule&CheckMask == 0 ==> 0 <= int(tranlist[t].sym_or_rule) && int(tranlist[t].sym_or_rule) < len(l.G.Symbols)))
+
+//@ func (*LALR1).CheckAndResolveConflict
+//@ props C04 C01
+//@ results set, err
+//@ requires wfTranlist(lalr, tranlist)
+//@ ensures err == nil
+//@ ensures [C04,C01] forall sy int :: has(set, sy) ==> len(set[sy]) >= 1 && validAct(lalr, tranlist, set[sy][0], sy)
+//@ ensures [C01] forall sy int :: has(set, sy) ==> 0 <= sy && sy < len(lalr.G.Symbols)
+//@ modifies nothing
+//@ allocates Action
+// building the candidate lists
+//@ loop 0: invariant forall sy int :: has(action_set, sy) ==> 0 <= sy && sy < len(lalr.G.Symbols) && len(action_set[sy]) >= 1
+//@ loop 0: invariant forall sy, k int :: has(action_set, sy) && 0 <= k && k < len(action_set[sy]) ==> validAct(lalr, tranlist, action_set[sy][k], sy) && allocated(action_set[sy][k])
+//@ loop 0: invariant unchanged(Action)
+//@ loop 1: invariant forall sy int :: has(action_set, sy) ==> 0 <= sy && sy < len(lalr.G.Symbols) && len(action_set[sy]) >= 1
+//@ loop 1: invariant forall sy, k int :: has(action_set, sy) && 0 <= k && k < len(action_set[sy]) ==> validAct(lalr, tranlist, action_set[sy][k], sy) && allocated(action_set[sy][k])
+//@ loop 1: invariant unchanged(Action)
+// resolving cell by cell
+//@ loop 2: invariant forall sy int :: has(action_set, sy) <==> has(before(action_set), sy)
+//@ loop 2: invariant forall sy int :: has(action_set, sy) ==> 0 <= sy && sy < len(lalr.G.Symbols) && len(action_set[sy]) >= 1
+//@ loop 2: invariant forall sy, k int :: has(action_set, sy) && 0 <= k && k < len(action_set[sy]) ==> validAct(lalr, tranlist, action_set[sy][k], sy) && allocated(action_set[sy][k])
+//@ loop 2: invariant unchanged(Action)
+//@ loop 3: invariant len(res) >= 1 && has(action_set, syIndex)
+//@ loop 3: invariant forall k int :: 0 <= k && k < len(res) ==> validAct(lalr, tranlist, res[k], syIndex) && allocated(res[k])
+//@ loop 3: invariant forall sy int :: has(action_set, sy) <==> has(before(action_set), sy)
+//@ loop 3: invariant forall sy int :: has(action_set, sy) ==> 0 <= sy && sy < len(lalr.G.Symbols) && len(action_set[sy]) >= 1
+//@ loop 3: invariant forall sy, k int :: has(action_set, sy) && 0 <= k && k < len(action_set[sy]) ==> validAct(lalr, tranlist, action_set[sy][k], sy) && allocated(action_set[sy][k])
+//@ loop 3: invariant unchanged(Action)
+//@ loop 3: decreases len(res)
+// one fold step: precedence first, yacc defaults otherwise (C04)
+//@ before_stmt [C04] "res[1] = act" spec_sr(res[0], res[1]) && spec_R(res[0], res[1]).Prec != -1 && spec_S(res[0], res[1]).Prec != -1 && spec_R(res[0], res[1]).Prec > spec_S(res[0], res[1]).Prec ==> act == spec_R(res[0], res[1])
+//@ before_stmt [C04] "res[1] = act" spec_sr(res[0], res[1]) && spec_R(res[0], res[1]).Prec != -1 && spec_S(res[0], res[1]).Prec != -1 && spec_R(res[0], res[1]).Prec < spec_S(res[0], res[1]).Prec ==> act == spec_S(res[0], res[1])
+//@ before_stmt [C04] "res[1] = act" spec_sr(res[0], res[1]) && spec_R(res[0], res[1]).Prec != -1 && spec_R(res[0], res[1]).Prec == spec_S(res[0], res[1]).Prec &&
+//@     spec_R(res[0], res[1]).PrecType == symbol.LEFT && spec_S(res[0], res[1]).PrecType == symbol.LEFT ==> act == spec_R(res[0], res[1])
+//@ before_stmt [C04] "res[1] = act" spec_sr(res[0], res[1]) && spec_R(res[0], res[1]).Prec != -1 && spec_R(res[0], res[1]).Prec == spec_S(res[0], res[1]).Prec &&
+//@     spec_R(res[0], res[1]).PrecType == symbol.RIGHT && spec_S(res[0], res[1]).PrecType == symbol.RIGHT ==> act == spec_S(res[0], res[1])
+//@ before_stmt [C04] "res[1] = act" spec_sr(res[0], res[1]) && spec_R(res[0], res[1]).Prec != -1 && spec_R(res[0], res[1]).Prec == spec_S(res[0], res[1]).Prec &&
+//@     (spec_R(res[0], res[1]).PrecType == symbol.NONE || spec_S(res[0], res[1]).PrecType == symbol.NONE) ==> act.ActionType == ERROR
+//@ before_stmt [C04] "res[1] = act" spec_sr(res[0], res[1]) && (res[0].Prec == -1 || res[1].Prec == -1) ==> act == spec_S(res[0], res[1])
+//@ before_stmt [C04] "res[1] = act" res[0].ActionType == REDUCE && res[1].ActionType == REDUCE && (res[0].Prec == -1 || res[1].Prec == -1) ==>
+//@     (act == res[0] || act == res[1]) && -act.ActionIndex <= -res[0].ActionIndex && -act.ActionIndex <= -res[1].ActionIndex
